@@ -990,8 +990,20 @@ def float_thread_checks(ctx, R):
 # ----------------------------------------------------------------------------------------------------------------
 
 
+def _limit_violations(ctx, per_key=2):
+    """report at most `per_key` concrete inputs per violation key (a broken kernel fails on most inputs)"""
+    orig, seen = ctx.violation, {}
+
+    def v(key, what, replay, found_input=True):
+        seen[key] = seen.get(key, 0) + 1
+        if seen[key] <= per_key:
+            orig(key, what, replay, found_input)
+    ctx.violation = v
+
+
 def run(ctx):
     t0 = time.time()
+    _limit_violations(ctx)
     R = Real()
     ctx.log("import + njit helpers %.1fs; numba threads available: %d (layer %s)" % (time.time() - t0, R.max_threads, R.numba.config.THREADING_LAYER))
     if R.max_threads < 16:
